@@ -102,3 +102,47 @@ Qed.
 Theorem loaded_uprp_table_has_one_set_per_number v cs :
   uprp_decode v = Ok cs -> NoDup (map fst (cby_idx cs)).
 Proof. intros H. exact (proj2 (uprp_decode_slots_indices _ _ _ H)). Qed.
+
+(* ---- the slot itself, read back by a later load: the unit-property set with the authored values, carrying the slot's number ---- *)
+From RC Require Import model.Flags proofs.Flags_proofs proofs.C12_proofs proofs.C04_readback gen.GenFlags.
+
+Lemma flags_read_back c nb bs n :
+  (forall l : list bool, length l = n -> rich_roundtrip c nb l) -> length (fc_dec c) = n -> length bs = n ->
+  forall x, flags_to c bs = Ok x -> flags_of c x = Ok bs.
+Proof.
+  intros Hrt Hnames Hlen x Hx. unfold flags_to in Hx. unfold flags_of.
+  destruct (Hrt bs Hlen) as (x0 & E0 & _ & D0). rewrite E0 in Hx. inversion Hx; subst x0.
+  rewrite D0. cbn [bind]. unfold rich_of_bools. rewrite map_snd_combine; [reflexivity|]. rewrite map_length. congruence.
+Qed.
+
+Theorem an_emitted_cuwp_slot_reads_back c slot i0 :
+  cuwp_encode c = Ok slot ->
+  length (c_vs c) = 6%nat -> length (c_vu c) = 7%nat -> length (c_flags c) = 5%nat ->
+  cuwp_is_unused slot = false ->                         (* content equal to an empty slot is the recorded C11 finding *)
+  uprp_decode_slots [slot] i0 =
+    Ok [{| c_hp := c_hp c; c_sh := c_sh c; c_en := c_en c; c_res := c_res c; c_hang := c_hang c; c_flags := c_flags c;
+           c_vs := c_vs c; c_vu := c_vu c; c_unk := c_unk c; c_pad := c_pad c; c_idx := Some (i0 + 1) |}].
+Proof.
+  intros H Hvs Hvu Hfl Hused. unfold cuwp_encode in H.
+  inv_bind H as a Ha Hk. inv_bind Hk as b Hb Hk2. inv_bind Hk2 as f Hf Hk3.
+  match type of Hk3 with Ok ?p = Ok _ => assert (slot = p) as -> by congruence end. clear Hk3.
+  cbn [uprp_decode_slots bind]. rewrite Hused.
+  change (vint "_valid_special_properties_flags" (mk_struct _)) with a.
+  change (vint "_valid_unit_properties_flags" (mk_struct _)) with b.
+  change (vint "_flags" (mk_struct _)) with f.
+  change (vint "_hitpoints_percentage" (mk_struct _)) with (c_hp c).
+  change (vint "_shieldpoints_percentage" (mk_struct _)) with (c_sh c).
+  change (vint "_energypoints_percentage" (mk_struct _)) with (c_en c).
+  change (vint "_resource_amount" (mk_struct _)) with (c_res c).
+  change (vint "_units_in_hangar" (mk_struct _)) with (c_hang c).
+  change (vint "_padding" (mk_struct _)) with (c_pad c).
+  rewrite (flags_read_back _ _ _ 6%nat cuwp_valid_special_flags_rich eq_refl Hvs _ Ha). cbn [bind].
+  rewrite (flags_read_back _ _ _ 7%nat cuwp_valid_unit_flags_rich eq_refl Hvu _ Hb). cbn [bind].
+  rewrite (flags_read_back _ _ (c_flags c ++ [c_unk c]) 6%nat cuwp_unit_property_flags_rich eq_refl
+             ltac:(rewrite app_length, Hfl; reflexivity) _ Hf). cbn [bind].
+  assert (firstn 5 (c_flags c ++ [c_unk c]) = c_flags c) as ->.
+  { rewrite firstn_app, Hfl, Nat.sub_diag, firstn_O, app_nil_r. apply firstn_all2. lia. }
+  assert (nth 5 (c_flags c ++ [c_unk c]) false = c_unk c) as ->.
+  { rewrite app_nth2 by lia. rewrite Hfl, Nat.sub_diag. reflexivity. }
+  reflexivity.
+Qed.
